@@ -79,6 +79,15 @@ func genEdits(r *vh.Rng, v []byte, id byte, all bool) []edit {
 	}
 	es = append(es, edit{"container-len len-1", setAt(v, 3, le64(uint64(len(v)-1)))})
 	es = append(es, edit{"container-len len+1", setAt(v, 3, le64(uint64(len(v)+1)))})
+	// the whole boundary table of the declared length (0..14, around len, overflowing), also combined with
+	// an extension (the declared length then frames a proper prefix / points past the longer value)
+	for _, b := range c03HeaderLengths(len(v)) {
+		es = append(es, edit{fmt.Sprintf("container-len-table %d", b), setAt(v, 3, le64(b))})
+	}
+	ext := append(append([]byte{}, v...), r.Bytes(1+r.Intn(20))...)
+	for _, b := range []uint64{0, 5, 11, 12, 13, uint64(len(v)), uint64(len(ext)), uint64(len(ext) + 1), 1<<64 - 1} {
+		es = append(es, edit{fmt.Sprintf("container-len-extended %d", b), setAt(ext, 3, le64(b))})
+	}
 	for _, b := range []byte{0x00, 0xf0, 0xf1, 0xf2, 0xff} {
 		es = append(es, edit{fmt.Sprintf("envelope-id %02x", b), setAt(v, 11, []byte{b})})
 	}
@@ -192,6 +201,9 @@ func runC03(rep *vh.Report, r *vh.Rng, n int, thorough bool) {
 			default:
 				verdict("translator.Decrypt", e.TrDecrypt(elab+" translator.Decrypt", id, ks, ed.val))
 			}
+			// header rule: a value whose declared container length does not describe it is refused by every
+			// entry point that parses the header (c03header.go)
+			c03HeaderCheck(e, elab, id, ks, ed.val)
 			// column path: unchanged, or the original revealed in place of the declared container
 			pre := genAffix(r)
 			col := append(append([]byte{}, pre...), ed.val...)
